@@ -12,6 +12,10 @@ func TestC04(t *testing.T) { core.Run(t, "C04", GenCase("C04"), Exec) }
 func TestC05(t *testing.T) { core.Run(t, "C05", GenCase("C05"), Exec) }
 func TestC06(t *testing.T) { core.Run(t, "C06", GenCase("C06"), Exec) }
 func TestC07(t *testing.T) { core.Run(t, "C07", GenCase("C07"), Exec) }
+func TestC04Big(t *testing.T) { core.Run(t, "C04", GenBig("C04"), ExecBig) }
+func TestC05Big(t *testing.T) { core.Run(t, "C05", GenBig("C05"), ExecBig) }
+func TestC06Big(t *testing.T) { core.Run(t, "C06", GenBig("C06"), ExecBig) }
+func TestC07Big(t *testing.T) { core.Run(t, "C07", GenBig("C07"), ExecBig) }
 func TestC20(t *testing.T) { core.Run(t, "C20", GenCalc, ExecCalc) }
 
 func FuzzIPCalc(f *testing.F) {
